@@ -442,7 +442,12 @@ _PREDICATE_REGISTRY = []
 def _repr_pretty(value, ctx):
     for predicate, fn in _PREDICATE_REGISTRY:
         if predicate(value):
-            return fn(value, ctx)
+            try:
+                return fn(value, ctx)
+            except Exception as e:
+                # Name the printer that failed, not this dispatcher.
+                _warn_about_bad_printer(fn, value, exc=e)
+                return repr(value)
     return repr(value)
 
 
